@@ -97,7 +97,10 @@ func (w *FindRules) Do(ctx *Context, loc *Location) {
 	w.Children = make([]*EvalRule, 0, 0)
 	for id, rule := range rs {
 		Log(DEBUG, ctx, "FindRules.Do", "rid", id)
-		rule.Id = id
+		if rule.Id != id {
+			// (cached rules, which are shared, already carry their id)
+			rule.Id = id
+		}
 
 		var bss []Bindings
 		var err error
